@@ -67,7 +67,47 @@ func ruleIndexedIterator(p *Prog, r *Report, rule string) {
 				Atoms: []Atom{dataMove, dataNil}, G: func(a []bool) bool { return a[0] }, GDesc: "a data-iterator move returned true", MinTargets: 1})
 		}
 		// direction of travel
-		requireSites(p, r, fn, "continues-"+sp.onward, "an empty block hands over to "+sp.onward+"()", evCall("(*leveldb/iterator.indexedIterator)."+sp.onward), 1)
+		// an empty block hands over in the direction of travel: by calling onward() again, or —
+		// loop form — by reaching another index move after the block was dropped
+		{
+			r.Site(1)
+			rec := countInstr(fn, evCall("(*leveldb/iterator.indexedIterator)."+sp.onward))
+			loops := false
+			if rec == 0 {
+				idxMoveCall := func(in ssa.Instruction) bool {
+					v, ok := in.(ssa.Value)
+					return ok && isInvokeOn("leveldb/iterator.IteratorIndexer", moves...)(v)
+				}
+				if findPath(after(fn, evCall("(*leveldb/iterator.indexedIterator).clearData")), nil, nil, idxMoveCall) != nil {
+					loops = true
+				}
+			}
+			r.Check(rec > 0 || loops, fnName(fn), "continues-"+sp.onward, "an empty block hands over to the next block in the direction of travel ("+sp.onward+"() again, or a loop back to the index move)", "neither a call of "+sp.onward+"() nor an index move reachable after clearData()", p.Pos(fn.Pos()))
+		}
+		// a data iterator whose move failed is asked for its error before it is dropped, replaced or
+		// the method returns: a read error of that block/table must not look like an empty block
+		{
+			r.Site(1)
+			consult := evCall("(*leveldb/iterator.indexedIterator).dataErr")
+			drop := orPred(evCall("(*leveldb/iterator.indexedIterator).clearData", "(*leveldb/iterator.indexedIterator).setData"), isReturn, func(in ssa.Instruction) bool {
+				v, ok := in.(ssa.Value)
+				return ok && isInvokeOn("leveldb/iterator.IteratorIndexer", moves...)(v)
+			})
+			dmCall := func(in ssa.Instruction) bool {
+				v, ok := in.(ssa.Value)
+				return ok && isInvokeOn("leveldb/iterator.Iterator", moves...)(v)
+			}
+			starts := after(fn, dmCall)
+			as := []Atom{dataMove}
+			vs := []bool{false}
+			if len(starts) == 0 && sp.name != "First" {
+				r.Fail(fnName(fn), "failed-data-move-consults-error:unresolved-anchor", "the result of the data-iterator move is tested", "no branch on a data move", p.Pos(fn.Pos()), nil)
+			} else if w := findPathV(starts, atomEdges(as, vs), consult, drop, atomVals(as, vs)); len(starts) > 0 && w != nil {
+				r.Fail(fnName(fn), "failed-data-move-consults-error", "after a data-iterator move failed, dataErr() is consulted before the data iterator is dropped or replaced, the index moves on, or the method returns", "a path drops the failed data iterator / moves on without dataErr(): a block or table that could not be read is skipped as if it were empty, and Error() stays nil", p.posOfLast(w, drop), p.renderPath(w))
+			} else {
+				r.OK(fnName(fn), "failed-data-move-consults-error", "after a data-iterator move failed, dataErr() is consulted before the data iterator is dropped or replaced, the index moves on, or the method returns")
+			}
+		}
 		other := "Prev"
 		if sp.onward == "Prev" {
 			other = "Next"
